@@ -155,7 +155,14 @@ class Timeline(ABC, Generic[IvlOut]):
         Returns:
             Intervals where start <= point < end
         """
-        return self.fetch(point, point + 1)
+        # fetch(point, point + 1) also returns events that merely start at
+        # point + 1 (the end bound is matched inclusively on start); keep only
+        # those that really contain the point
+        return (
+            ivl
+            for ivl in self.fetch(point, point + 1)
+            if ivl.finite_start <= point < ivl.finite_end
+        )
 
 
 class Filter(ABC, Generic[IvlIn]):
